@@ -93,7 +93,10 @@ def linRun (H : Bytes → Bytes) : PState → Bytes → Nat → List (List (Byte
 
 /-- the end-to-end statement for linear histories, on the byte-level model that the driver runs: after any number of
 blocks (pruning triggered by the store itself), every key of the tip state and of every state within `ph` below the
-tip reads the value of its most recent write — or the hash function has a collision.  NOT proved; what is proved is
+tip reads the value of its most recent write — or the hash function has a collision.  NOT proved, and as written
+only a marker of the aim: the disjunct is the unlocated `∃ x ≠ y, H x = H y`, which every 32-byte-valued function
+satisfies by counting, so the intended statement has the collision located among the node encodings hashed by the
+run (`C03.CollisionIn H (C01.tracesOf H <nodes saved by the run>)`, as in `C01.load_save_or_collision`).  What is proved is
 the composition `retained_state_survives_pruning_partial` below plus its ingredients, and the byte-level model is
 tied to the code by the differential run (digest of the whole database after every pruning run). -/
 def PruneSafeFull : Prop :=
